@@ -4,7 +4,7 @@ from __future__ import annotations
 
 import copy
 
-from .. import gen, oracles as O, rig
+from .. import gen, oracles as O, rig, tconc
 from ..view import View
 from . import common
 
@@ -103,6 +103,8 @@ def work(ctx, tier):
             _one(ctx, sc, e, stats)
         ctx.inc("start_hook_abort_scenarios")
     common.crossing_slice(ctx, tier, common.rng_for(ctx, "crossing"), lambda sc, e: _one(ctx, sc, e, stats), entries=entries)
+    # whole calls racing in threads on shared components (budget, one adaptive() strategy object): execute() still returns an outcome
+    tconc.thread_slice(ctx, tier, common.rng_for(ctx, "threads"), ["escape", "identity"], budget=True, breaker=False, components=True)
     if ctx.shard == 0:
         from . import hang
 
@@ -126,6 +128,7 @@ def conclude(ctx):
     floors["hung_attempt_runs"] = (ctx.cnt["hung_attempt_runs"], 6)
     floors["abort_position:start-hook"] = (ctx.cnt["abort_position:start-hook"], 30)
     common.crossing_floors(ctx, floors)
+    floors.update(tconc.floors(ctx, components=True))
     return dict(
         rule=(
             "sweep + random mixed histories + systematic abort-at-every-poll-index over the 6 execute() entry points, incl. no-retry policies, breaker rejections, "
@@ -143,6 +146,8 @@ def conclude(ctx):
 
 
 def replay(data):
+    if "tspec" in data["payload"]:
+        return tconc.replay(data["payload"])
     p = data["payload"]
     f = p["scenario"].get("fault")
     prop = bool(f and f.get("kind") == "cb")
